@@ -5,6 +5,7 @@ package wtxmgr
 import (
 	"github.com/btcsuite/btcd/chaincfg/chainhash"
 	"github.com/btcsuite/btcd/wire"
+	"github.com/btcsuite/btcwallet/walletdb"
 
 	"verif/verifrt"
 )
@@ -87,3 +88,44 @@ func zzC14(n int) {
 	verifrt.PermuteRanges(false)
 	zzC14Check(n, sorted, hashes, parents)
 }
+
+// zzC14Store: the same graphs recorded as unconfirmed transactions of a real
+// Store (memdb), each with a chosen set of wallet-credited outputs (none, the
+// first, both - dependencies may run through outputs that are NOT wallet
+// credits), then Store.UnminedTxs under every map order: the list offered for
+// rebroadcast holds every unconfirmed transaction once, parents first.
+func zzC14Store(n int) {
+	txs, hashes, parents := zzC14Graph(n)
+	w := zzNewWorld(nil)
+	for i := range txs {
+		rec, err := NewTxRecordFromMsgTx(txs[i], w.clock.now)
+		must(err)
+		credits := verifrt.Choice(3, "credited-outputs")
+		must(w.update(func(ns walletdb.ReadWriteBucket) error {
+			if err := w.store.InsertTx(ns, rec, nil); err != nil {
+				return err
+			}
+			for o := 0; o < credits; o++ {
+				if err := w.store.AddCredit(ns, rec, nil, uint32(o), false); err != nil {
+					return err
+				}
+			}
+			return nil
+		}))
+		if credits == 0 && i < n-1 {
+			verifrt.Reach("c14-parent-without-credit")
+		}
+	}
+	var sorted []*wire.MsgTx
+	verifrt.PermuteRanges(true)
+	must(w.view(func(ns walletdb.ReadBucket) error {
+		var err error
+		sorted, err = w.store.UnminedTxs(ns)
+		return err
+	}))
+	verifrt.PermuteRanges(false)
+	zzC14Check(n, sorted, hashes, parents)
+}
+
+func ZzC14Store2() { zzC14Store(2) }
+func ZzC14Store3() { zzC14Store(3) }
